@@ -185,21 +185,91 @@ func init() {
 	}
 	// atomic.Pointer[T] instantiations are matched by prefix in lookupExternal
 
-	// ---- time ----
-	externals["time.Now"] = func(p *Path, fr *Frame, fn *ssa.Function, a []Value) Value {
-		return p.timeStructAt(p.advanceClock())
+	// ---- time ---- (time.Time is modelled as {wall: 0, ext: ns on the model clock, loc: nil}; wall-clock
+	// calendar functions are outside the model)
+	tm := func(p *Path, ns *Term) Value { return Struct{p.tt.U64(0), ns, Ptr{}} }
+	tns := func(v Value) *Term { return v.(Struct)[1].(*Term) }
+	externals["time.Now"] = func(p *Path, fr *Frame, fn *ssa.Function, a []Value) Value { return tm(p, p.now()) }
+	externals["(time.Time).Add"] = func(p *Path, fr *Frame, fn *ssa.Function, a []Value) Value {
+		return tm(p, p.tt.Bin(OAdd, tns(a[0]), a[1].(*Term)))
+	}
+	externals["(time.Time).Sub"] = func(p *Path, fr *Frame, fn *ssa.Function, a []Value) Value {
+		return p.tt.Bin(OSub, tns(a[0]), tns(a[1]))
+	}
+	externals["(time.Time).After"] = func(p *Path, fr *Frame, fn *ssa.Function, a []Value) Value {
+		return p.tt.Cmp(OSlt, tns(a[1]), tns(a[0]))
+	}
+	externals["(time.Time).Before"] = func(p *Path, fr *Frame, fn *ssa.Function, a []Value) Value {
+		return p.tt.Cmp(OSlt, tns(a[0]), tns(a[1]))
+	}
+	externals["(time.Time).Equal"] = func(p *Path, fr *Frame, fn *ssa.Function, a []Value) Value {
+		return p.tt.Eq(tns(a[0]), tns(a[1]))
+	}
+	externals["(time.Time).Compare"] = func(p *Path, fr *Frame, fn *ssa.Function, a []Value) Value {
+		x, y := tns(a[0]), tns(a[1])
+		return p.tt.Ite(p.tt.Cmp(OSlt, x, y), p.tt.I64(-1), p.tt.Ite(p.tt.Eq(x, y), p.tt.I64(0), p.tt.I64(1)))
+	}
+	externals["(time.Time).IsZero"] = func(p *Path, fr *Frame, fn *ssa.Function, a []Value) Value {
+		return p.tt.Eq(tns(a[0]), p.tt.U64(0))
+	}
+	externals["(time.Time).UnixNano"] = func(p *Path, fr *Frame, fn *ssa.Function, a []Value) Value { return tns(a[0]) }
+	externals["time.Since"] = func(p *Path, fr *Frame, fn *ssa.Function, a []Value) Value {
+		return p.tt.Bin(OSub, p.now(), tns(a[0]))
+	}
+	externals["time.Until"] = func(p *Path, fr *Frame, fn *ssa.Function, a []Value) Value {
+		return p.tt.Bin(OSub, tns(a[0]), p.now())
 	}
 	mono := "github.com/refraction-networking/uquic/internal/monotime."
-	externals[mono+"Now"] = func(p *Path, fr *Frame, fn *ssa.Function, a []Value) Value { return p.advanceClock() }
+	externals[mono+"Now"] = func(p *Path, fr *Frame, fn *ssa.Function, a []Value) Value { return p.now() }
 	externals[mono+"Since"] = func(p *Path, fr *Frame, fn *ssa.Function, a []Value) Value {
-		return p.tt.Bin(OSub, p.advanceClock(), a[0].(*Term))
+		return p.tt.Bin(OSub, p.now(), a[0].(*Term))
 	}
 	externals[mono+"Until"] = func(p *Path, fr *Frame, fn *ssa.Function, a []Value) Value {
-		return p.tt.Bin(OSub, a[0].(*Term), p.advanceClock())
+		return p.tt.Bin(OSub, a[0].(*Term), p.now())
 	}
-	externals["time.Since"] = func(p *Path, fr *Frame, fn *ssa.Function, a []Value) Value {
-		st := a[0].(Struct)
-		return p.tt.Bin(OSub, p.advanceClock(), st[1].(*Term))
+	externals[mono+"FromTime"] = func(p *Path, fr *Frame, fn *ssa.Function, a []Value) Value { return tns(a[0]) }
+	externals["("+mono+"Time).ToTime"] = func(p *Path, fr *Frame, fn *ssa.Function, a []Value) Value { return tm(p, a[0].(*Term)) }
+	newTimer := func(p *Path, fn *ssa.Function, d *Term) Value {
+		// *time.Timer with a virtual channel
+		tt := fn.Signature.Results().At(0).Type().Underlying().(*types.Pointer).Elem()
+		st := p.zero(tt).(Struct)
+		ch := &Chan{cap: 1}
+		vt := &VTimer{ch: ch, active: true, deadline: p.tt.Bin(OAdd, p.now(), d)}
+		ch.timer = vt
+		st[0] = ch
+		slot := new(Value)
+		*slot = st
+		p.timers = append(p.timers, vt)
+		p.timerOf[slot] = vt
+		return Ptr{slot: slot}
+	}
+	externals["time.NewTimer"] = func(p *Path, fr *Frame, fn *ssa.Function, a []Value) Value { return newTimer(p, fn, a[0].(*Term)) }
+	externals["time.AfterFunc"] = func(p *Path, fr *Frame, fn *ssa.Function, a []Value) Value {
+		// the callback would run on its own goroutine: outside the model; the timer never fires here
+		v := newTimer(p, fn, a[0].(*Term))
+		p.timerOf[v.(Ptr).slot].active = false
+		p.res.Stubs["time.AfterFunc callbacks never run (A-SEQ)"] = true
+		return v
+	}
+	externals["(*time.Timer).Stop"] = func(p *Path, fr *Frame, fn *ssa.Function, a []Value) Value {
+		vt := p.timerOf[a[0].(Ptr).slot]
+		if vt == nil {
+			return p.tt.False()
+		}
+		was := vt.active
+		vt.active = false
+		return p.tt.BoolC(was)
+	}
+	externals["(*time.Timer).Reset"] = func(p *Path, fr *Frame, fn *ssa.Function, a []Value) Value {
+		vt := p.timerOf[a[0].(Ptr).slot]
+		if vt == nil {
+			p.unsupported("Reset of unknown timer")
+		}
+		was := vt.active
+		vt.active = true
+		vt.ch.buf = nil
+		vt.deadline = p.tt.Bin(OAdd, p.now(), a[1].(*Term))
+		return p.tt.BoolC(was)
 	}
 
 	// ---- os / runtime / misc ----
@@ -295,6 +365,21 @@ func init() {
 	externals["internal/race.Enabled"] = nil
 	delete(externals, "internal/race.Enabled")
 
+	// ---- errors (Is/As use reflectlite) ----
+	externals["errors.Is"] = func(p *Path, fr *Frame, fn *ssa.Function, a []Value) Value {
+		return p.errorsIs(fr, a[0].(Iface), a[1].(Iface), 0)
+	}
+	externals["errors.As"] = func(p *Path, fr *Frame, fn *ssa.Function, a []Value) Value {
+		tgt := a[1].(Iface)
+		if tgt.t == nil {
+			panic(goPanic{val: Iface{}, site: p.site(fr), msg: "errors: target cannot be nil"})
+		}
+		pt, ok := tgt.t.Underlying().(*types.Pointer)
+		if !ok || tgt.v.(Ptr).IsNil() {
+			panic(goPanic{val: Iface{}, site: p.site(fr), msg: "errors: target must be a non-nil pointer"})
+		}
+		return p.tt.BoolC(p.errorsAs(fr, a[0].(Iface), pt.Elem(), tgt.v.(Ptr), 0))
+	}
 	// ---- errors ----
 	// errors.New, Is, As, Unwrap, Join are interpreted from source (reflectlite usage is limited to As).
 
@@ -580,6 +665,14 @@ func (p *Path) intrinsic(fr *Frame, fn *ssa.Function, a []Value) (Value, bool) {
 			p.unsupported("vx_param(%q): no such parameter in harness directives", name)
 		}
 		return tt.I64(int64(v)), true
+	case "vx_clock_advance": // vx_clock_advance(d): the model clock moves forward by d >= 0 nanoseconds
+		d := a[0].(*Term)
+		p.boundsCheck(fr, tt.Cmp(OSle, tt.U64(0), d), "vx_clock_advance: negative")
+		p.clock = tt.Bin(OAdd, p.clockTerm(), d)
+		return nil, true
+	case "vx_clock_free": // every Now() call returns a fresh, later instant
+		p.clockFree = true
+		return nil, true
 	case "vx_symbolic":
 		return tt.True(), true
 	case "vx_concrete_u64": // force concretisation of a value (forks over feasible values)
@@ -606,3 +699,96 @@ func (fr *Frame) callerOrSelf() *Frame {
 }
 
 var _ = fmt.Sprint
+
+func (p *Path) methodOf(t types.Type, name string) *ssa.Function {
+	p.eng.msMu.Lock()
+	defer p.eng.msMu.Unlock()
+	ms := p.eng.prog.MethodSets.MethodSet(t)
+	for i := 0; i < ms.Len(); i++ {
+		if ms.At(i).Obj().Name() == name && ms.At(i).Obj().Exported() {
+			return p.eng.prog.MethodValue(ms.At(i))
+		}
+	}
+	return nil
+}
+
+func (p *Path) errorsIs(fr *Frame, err, target Iface, depth int) *Term {
+	tt := p.tt
+	if err.t == nil || target.t == nil {
+		return tt.BoolC(err.t == nil && target.t == nil)
+	}
+	if depth > 20 {
+		p.unsupported("errors.Is: chain too deep")
+	}
+	if types.Comparable(target.t) {
+		eq := p.valEq(fr, nil, err, target)
+		if p.branch(eq) {
+			return tt.True()
+		}
+	}
+	if m := p.methodOf(err.t, "Is"); m != nil && m.Signature.Params().Len() == 1 && m.Signature.Results().Len() == 1 {
+		r := p.callFrom(fr, m, []Value{err.v, target}, nil).(*Term)
+		if p.branch(r) {
+			return tt.True()
+		}
+	}
+	if m := p.methodOf(err.t, "Unwrap"); m != nil && m.Signature.Params().Len() == 0 && m.Signature.Results().Len() == 1 {
+		r := p.callFrom(fr, m, []Value{err.v}, nil)
+		switch x := r.(type) {
+		case Iface:
+			if x.t == nil {
+				return tt.False()
+			}
+			return p.errorsIs(fr, x, target, depth+1)
+		case GSlice:
+			for i := 0; i < x.n; i++ {
+				e := x.arr.cells[x.off+i].(Iface)
+				if e.t == nil {
+					continue
+				}
+				if p.branch(p.errorsIs(fr, e, target, depth+1)) {
+					return tt.True()
+				}
+			}
+		}
+	}
+	return tt.False()
+}
+
+func (p *Path) errorsAs(fr *Frame, err Iface, want types.Type, dst Ptr, depth int) bool {
+	if err.t == nil {
+		return false
+	}
+	if depth > 20 {
+		p.unsupported("errors.As: chain too deep")
+	}
+	if types.IsInterface(want) {
+		if p.eng.implements(err.t, want) {
+			p.store(fr, dst, err)
+			return true
+		}
+	} else if types.Identical(err.t, want) {
+		p.store(fr, dst, err.v)
+		return true
+	}
+	if m := p.methodOf(err.t, "As"); m != nil && m.Signature.Params().Len() == 1 && m.Signature.Results().Len() == 1 {
+		r := p.callFrom(fr, m, []Value{err.v, Iface{t: types.NewPointer(want), v: dst}}, nil).(*Term)
+		if p.branch(r) {
+			return true
+		}
+	}
+	if m := p.methodOf(err.t, "Unwrap"); m != nil && m.Signature.Params().Len() == 0 && m.Signature.Results().Len() == 1 {
+		r := p.callFrom(fr, m, []Value{err.v}, nil)
+		switch x := r.(type) {
+		case Iface:
+			return p.errorsAs(fr, x, want, dst, depth+1)
+		case GSlice:
+			for i := 0; i < x.n; i++ {
+				if p.errorsAs(fr, x.arr.cells[x.off+i].(Iface), want, dst, depth+1) {
+					return true
+				}
+			}
+		}
+	}
+	return false
+}
